@@ -100,6 +100,8 @@ func NewUpstreamReverseProxy(config *UpstreamConfig, signer *RequestSigner) (htt
 			for key := range securityHeaders {
 				resp.Header.Del(key)
 			}
+			// The same goes for the Strict-Transport-Security header set by requireHTTPS.
+			resp.Header.Del("Strict-Transport-Security")
 
 			return nil
 		},
